@@ -2,6 +2,7 @@ import Ecal.Lemmas.EvalHeap
 import Ecal.Lemmas.ContainerPaths
 import Ecal.Lemmas.EvalFrame
 import Ecal.Lemmas.EvalLists
+import Ecal.Lemmas.EvalNew
 /-!
 # C05 — lexical scoping, functions, containers and objects
 
@@ -11,7 +12,8 @@ Theorems about the functions of `Model/Eval.lean` (scope chain: `scopeFor`, `loo
 `runM m st` = result and final state of a computation.  `St.chain st f sc` is the scope `sc` followed by
 its ancestors, `St.nearest st sc v` the first scope on that chain that defines `v`.
 
-Proved here: call_does_not_write_enclosing_frames, lookup_nearest, assign_nearest_or_local, let_local, inner_not_visible_outside,
+Proved here: len_add_del_model (incl. append aliasing), full call frames on `buildFrame` (which `runFunction` calls),
+objects partially (copy loop, bound methods, init once), call_does_not_write_enclosing_frames, lookup_nearest, assign_nearest_or_local, let_local, inner_not_visible_outside,
 call_fresh_locals_partial (frame = fresh index), closure_sees_definition_scope_partial (chain of a frame),
 args_missing_default_extra_ignored, prims_by_value_containers_by_ref (aliasing through the heap cell),
 read_after_write (one map cell, number and string keys) and read_after_write_paths (any nesting, acyclic
@@ -293,6 +295,74 @@ theorem len_add_del_model :
 /-- non-vacuity of the aliasing cases: appending to a full slice moves to a new array, to a slice with room stays -/
 example : ∃ st', runM (appendVals 1 1 [.null]) { lists := #[[], [.null]] } = (.ok (.list 2 2), st') := ⟨_, rfl⟩
 example : ∃ st', runM (appendVals 1 1 [.null]) { lists := #[[], [.null, .bool true]] } = (.ok (.list 1 2), st') := ⟨_, rfl⟩
+
+/-- `addSuperClasses`: FIRST the super templates, depth first and in list order (`superLoop`: elements that are
+    not maps are skipped, the returned inits are collected in order), THEN the template's own properties
+    (`copyProps`) — so own properties overwrite inherited ones and a later super overwrites an earlier one. -/
+theorem addSuperClasses_order (f obj tr : Nat) :
+    addSuperClasses (f + 1) obj tr = (do
+      let tkvs ← getMap tr
+      let (err, initSuper) ← (match mapLookup tkvs (.str superName) with
+        | some (.list r l) => do superLoop (addSuperClasses f obj) (← getList r l) none []
+        | some _ => pure (some (plain "Property _super must be a list of super classes"), [])
+        | none => pure (none, []))
+      let initFn ← copyProps obj initSuper tkvs Val.null
+      pure (initFn, err)) := rfl
+
+/- Full statement (tested by the correspondence run, not proved): after `new(T)`, every key of `T` and of all
+   super templates of `T`, transitively, is a key of the object; values: own template over supers, later super
+   over earlier.  Proved: the copy loop that `addSuperClasses` runs for EACH template (supers first, see
+   `addSuperClasses_order`) makes every string key of that template a key of the object, never removes a key
+   copied before, and a non-function property copied last is the value held.  Missing: the induction over the
+   super lists (needs that the template cells and the super lists are not changed while the object is filled). -/
+/-- one template's properties (string keys) all arrive in the object and earlier (inherited) keys stay -/
+theorem new_has_all_template_props_partial (obj : Nat) (initSuper : List Val) (tkvs : List (Val × Val)) (init0 r : Val)
+    (st st' : St) (ho : obj < st.maps.size) (h : runM (copyProps obj initSuper tkvs init0) st = (.ok r, st')) :
+    (∀ s, hasKey (st.entries obj) (.str s) = true → hasKey (st'.entries obj) (.str s) = true) ∧
+    (∀ s v, (Val.str s, v) ∈ tkvs → hasKey (st'.entries obj) (.str s) = true) :=
+  (copyProps_keys obj initSuper tkvs init0 r st st' ho h).2
+
+/-- own template wins: the property copied last under a key is the one the object holds -/
+theorem own_property_wins (obj : Nat) (initSuper : List Val) (s : List Nat) (v nv : Val) (st st' : St)
+    (ho : obj < st.maps.size) (hv : isFunc v = false) (h : runM (copyProp obj initSuper (.str s) v) st = (.ok nv, st')) :
+    mapLookup (st'.entries obj) (.str s) = some v :=
+  copyProp_value obj initSuper s v nv st st' ho hv h
+
+/- Full statement (tested, not proved): a method invoked through the object reads `this` = the object.  Proved:
+   the method stored in the object is a NEW function record bound to the object CELL (by reference: `.map obj`),
+   with the declaration and declaration scope of the template's function; `buildFrame` (see
+   `runFunction_uses_buildFrame`) writes `this` into the fresh frame before the parameters, into no other scope
+   (`call_does_not_write_enclosing_frames`).  Missing: that no later parameter write replaces the value (true unless
+   a parameter is itself called `this`). -/
+theorem method_this_partial (obj : Nat) (initSuper : List Val) (k nv : Val) (id : Nat) (st st' : St) (ho : obj < st.maps.size)
+    (h : runM (copyProp obj initSuper k (.func id)) st = (.ok nv, st')) :
+    st'.entries obj = mapStore (st.entries obj) k nv ∧
+    ∃ fr sup, st.funcs[id]? = some fr ∧ nv = .func st.funcs.size ∧
+      st'.funcs[st.funcs.size]? = some { fr with this := some (.map obj), super := sup } := by
+  have cr := copyProp_spec obj initSuper k (.func id) nv st st' ho h
+  obtain ⟨fr, sup, h1, h2, h3⟩ := cr.bound id rfl
+  exact ⟨cr.stored, fr, sup, h1, h2, by rw [h3]; simp⟩
+
+/-- `new` runs the `init` held by the finished object exactly ONCE, with the constructor arguments after the
+    template, as the last step: the result is the object unless init fails.  The init held is the template's own
+    bound init, or an inherited one when the template has none (it is a copied property like any other:
+    `new_has_all_template_props_partial`); its `super` is the list collected by `superLoop` (`addSuperClasses_order`,
+    `copyProp`).  The evaluator passes `runInit id args := function.Run` with a fresh empty caller scope
+    (`runBuiltin_uses`). -/
+theorem init_once_with_args (runInit : Nat → List Val → M Val) (tr id : Nat) (rest : List Val) (st s1 : St)
+    (r0 : Val) (err : Option Sig)
+    (hadd : runM (addSuperClasses 200 st.maps.size tr) { st with maps := st.maps.push [] } = (.ok (r0, err), s1))
+    (hinit : mapLookup (s1.entries st.maps.size) (.str initName) = some (.func id)) :
+    runM (newB runInit (.map tr :: rest)) st =
+      match runM (runInit id rest) s1 with
+      | (.ok _, s2) => (.ok (.map st.maps.size), s2)
+      | (.error e, s2) => (.error e, s2) :=
+  new_runs_init_once runInit tr id rest st s1 r0 err hadd hinit
+
+/-- non-vacuity: a template `{"init": f0}` — `new` binds init to the object and the hypotheses above hold -/
+example : ∃ r s1, runM (addSuperClasses 200 1 0)
+    { maps := #[[(.str initName, .func 0)], []], funcs := #[⟨"", default, 0, none, none⟩] } = (.ok r, s1) ∧
+    mapLookup (s1.entries 1) (.str initName) = some (.func 1) := ⟨_, _, rfl, rfl⟩
 
 /-- Any nesting (maps with number and string keys, lists with negative indices) on acyclic tree values: a
     successful write through a flattened access path is read back through the same path. -/
